@@ -24,3 +24,6 @@ def check(ctx: Ctx) -> None:
     # forgets a registry only when every task it can hold was awaited
     from . import close as CL
     CL.r_forget_only_gathered(ctx, "R02.11")
+    # "its slot is handed back exactly once and its callbacks fire": the ending waits for a callback only as long as the callback
+    # itself runs - execute_optional awaits coroutine-function callbacks and nothing a plain callback merely returns
+    S.r_execute_optional(ctx, "R02.12")
